@@ -98,8 +98,9 @@ theorem C15_div_spec (a b : Int) (ha : inRange a = true) (hb : inRange b = true)
           · omega
       simp [ofChecked, checked, hq]
 
-/-- `%`: division by zero error for a zero divisor; otherwise the Euclidean remainder:
-    `0 ≤ r < |b|` and `a = b * q + r`; it never overflows. -/
+/-- `%`: division by zero error for a zero divisor; otherwise the value `a % b` of Lean's `Int.emod`
+    (that this is the Euclidean remainder, `0 ≤ r < |b|` and `a = b * q + r`, is `C15_mod_euclidean`;
+    that it fits 64 bits is `C15_mod_result_fits`). -/
 theorem C15_mod_spec (a b : Int) :
     mod a b = if b = 0 then .divZero else .val (a % b) := by
   unfold mod; rfl
